@@ -223,7 +223,10 @@ def main(argv):
         ncorpus = 0
         for w_, ref in zip(work, refs):
             # validated per run: keep what the current tree compiles in the reference configuration
-            if ref.timeout or ref.rc is None or worlds.fault_class(ref):
+            # ... and what it compiles within modest resources: a reference run that ends at
+            # the memory cap or takes tens of seconds would only measure my caps
+            if ref.timeout or ref.rc is None or worlds.fault_class(ref) or ref.wall > 20 or \
+               b"Storage allocation error" in ref.out + ref.err or b"Exceeded time limit" in ref.out + ref.err:
                 dropped.append(w_[0])
                 continue
             if w_[2] == "corpus":
